@@ -169,6 +169,7 @@ class Interp:
         self.ops_seen = set()
         self.forks = 0
         self.pruned = 0
+        self.undef_reads = 0
 
     # -- public -------------------------------------------------------------------------
     def run(self, fname, args):
@@ -228,7 +229,14 @@ class Interp:
 
     def _get(self, f, regs, r, ins):
         if r not in regs:
-            raise EncodingError("read of unwritten register r%d in %s: %s" % (r, f.name, ins.raw))
+            # a register read before any write on this path: the real frame slot holds whatever was
+            # there.  Symbolic mode: an unconstrained fresh value (counted; a verdict that depends on
+            # it can only be reported after a reproducing run).  Concrete mode: no prediction possible.
+            if self.concrete:
+                raise EncodingError("read of unwritten register r%d in %s: %s" % (r, f.name, ins.raw))
+            self.undef_reads += 1
+            junk = []
+            regs[r] = self.types.fresh(f.regs[r], "undef_%s_r%d_%d" % (f.name, r, self.undef_reads), junk)
         return regs[r]
 
     def _branch(self, cond, conds=()):
